@@ -37,8 +37,8 @@ TIE_THEOREMS = {"tables_ok_rydberg", "tables_ok_raman", "tables_ok_microwave", "
                 "device_tables_ok", "noise_tables_ok"}
 
 COUNTS = {  # objects per family
-    "quick": dict(channel=700, device=450, layout=1000, noise=1000, simconfig=600, register=1000, detmap=1000,
-                  config=800, results=1000),
+    "quick": dict(channel=1000, device=700, layout=1000, noise=1000, simconfig=800, register=1000, detmap=1000,
+                  config=1000, results=1000),
     "thorough": dict(channel=8000, device=6000, layout=10000, noise=10000, simconfig=6000, register=10000,
                      detmap=10000, config=8000, results=10000),
 }
@@ -241,23 +241,28 @@ class CaseResult:
 
 
 def legacy_device_roundtrip(spec, obj) -> list[g.Fail]:
+    """Legacy format: virtual devices are rebuilt from their parameters, physical ones are referenced by
+    name (only the library's own devices can be)."""
     from pulser.json.coders import PulserDecoder, PulserEncoder
 
+    if not spec.get("virtual") and "builtin" not in spec:
+        return []
     try:
         with warnings.catch_warnings():
             warnings.simplefilter("ignore")
             s = json.dumps(obj, cls=PulserEncoder)
             back = json.loads(s, cls=PulserDecoder)
     except Exception as e:  # noqa: BLE001
-        return [g.Fail("legacy", g._key("device", spec, "legacy", exc=type(e).__name__),
+        case = "default_noise_model" if (obj.default_noise_model is not None and "NoiseModel" in str(e)) else None
+        return [g.Fail("legacy", g._key("device", spec, "legacy", exc=type(e).__name__, case=case),
                        f"legacy encoder raised {type(e).__name__}: {str(e)[:200]}")]
-    if spec["virtual"]:
+    if True:
         diffs = g.diff_values(tb.device_value(obj), tb.device_value(back))
         if diffs or back != obj:
             f = sorted({d.split(".")[1].split("[")[0] for d in diffs}) or ["=="]
             return [g.Fail("legacy", g._key("device", spec, "legacy", field=f[0]),
                            f"legacy round trip differs at {diffs[:3]}")]
-    return []  # physical devices are serialised by name in the legacy format (not built back)
+    return []
 
 
 def run_case(model: Model | None, family: str, spec) -> CaseResult:
@@ -425,6 +430,7 @@ def _findings():
 
 def check(tier: str, seed: int) -> int:
     timer = Timer()
+    g.install_check_schema_memo()
     tie_broken: list[dict] = []
     # 1. translator tie
     try:
@@ -489,6 +495,10 @@ def check(tier: str, seed: int) -> int:
                 stats["sizes"]["channel_with_eom"] += 1
                 nt = True
         elif family == "device":
+            if "builtin" in spec:
+                stats["sizes"]["builtin:" + spec["builtin"]] += 1
+                nontrivial += 1
+                return
             stats["sizes"][f"channels={len(spec['channels'])}"] += 1
             stats["sizes"][f"dmms={'default' if spec['dmms'] is None else len(spec['dmms'])}"] += 1
             stats["sizes"][f"layouts={len(spec['layouts'])}"] += 1
@@ -679,6 +689,7 @@ def common_json(x) -> str:
 # replay
 # --------------------------------------------------------------------------------------
 def replay(path: str) -> int:
+    g.install_check_schema_memo()
     item = json.loads(Path(path).read_text())
     if item.get("kind") == "tie":
         print("replay: this file records a broken translator tie without a failing object:")
